@@ -16,14 +16,16 @@ def run_one(s):
     count_ok = True
     lo, hi = 10 ** 9, -10 ** 9
     seq_smp = tp.samplers.AdaptiveRandomRejectionSampler(dom, n_points=n) if s.get("seq") else None
+    prev = None
     if seq_smp is not None:
-        seq_smp.sample_points()
+        prev = seq_smp.sample_points().as_tensor.detach().clone().reshape(-1)       # (what the CALLER got: the previous point set)
     for rep in range(s["reps"]):
         # independent runs (a fresh sampler each), or (seq) consecutive steps of ONE sampler object: every step keeps every row
         # with the stated probability, independently of the earlier steps
         smp = seq_smp if seq_smp is not None else tp.samplers.AdaptiveRandomRejectionSampler(dom, n_points=n)
-        first = (smp.last_points if seq_smp is not None else smp.sample_points()).as_tensor.detach().clone().reshape(-1)
+        first = prev if seq_smp is not None else smp.sample_points().as_tensor.detach().clone().reshape(-1)
         second = smp.sample_points(unreduced_loss=loss).as_tensor.detach().clone().reshape(-1)
+        prev = second
         count_ok = count_ok and len(first) == n and len(second) == n
         sv = set(float(v) for v in second)
         for i in range(min(n, len(first))):
